@@ -327,6 +327,19 @@ std::string sqf::parser::preprocessor::impl_default::instance::replace(::sqf::ru
     {
         return m(original_fileinfo, original_fileinfo, params, runtime);
     }
+    // A macro that is reached again while its own body is being expanded would expand forever
+    if (std::find(m_expanding.begin(), m_expanding.end(), std::string(m.name())) != m_expanding.end())
+    {
+        m_errflag = true;
+        log(err::RecursiveMacro(original_fileinfo.to_diag_info(), std::string(m.name())));
+        return "";
+    }
+    struct expanding_guard
+    {
+        std::vector<std::string>& names;
+        expanding_guard(std::vector<std::string>& n, std::string name) : names(n) { names.push_back(std::move(name)); }
+        ~expanding_guard() { names.pop_back(); }
+    } expanding(m_expanding, std::string(m.name()));
 
     std::unordered_map<std::string, std::string> parammap;
     for (size_t i = 0; i < params.size(); i++)
